@@ -117,4 +117,284 @@ theorem nodup_blocks_of_pairwise : ∀ {L : List Item}, (∀ x ∈ L, x.nodes.No
     obtain ⟨y, hy, hay⟩ := mem_blocks.mp hb
     exact h2.1 y hy a ha hay
 
+/-! ### insertions into a parent that does not hold the list: no effect -/
+
+theorem mountItem_absent {kids : List NodeId} {r : NodeId} (it : Item) (h : r ∉ kids) :
+    mountItem kids it (some r) = kids := by
+  unfold mountItem
+  generalize it.nodes = b
+  induction b with
+  | nil => rfl
+  | cons n b ih => rw [List.foldl_cons, insertBefore_of_not_mem h]; exact ih
+
+theorem place1_absent {marker : NodeId} {kids : List NodeId} {st : List (Option Item)} (p : Nat) (x : Item)
+    (hm : marker ∉ kids) (hst : ∀ it ∈ somes st, ∀ n ∈ it.nodes, n ∉ kids) :
+    place1 marker kids st p x = kids := by
+  unfold place1
+  cases hn : nextMounted st p with
+  | none => exact mountItem_absent x hm
+  | some sib =>
+    simp only [insertBeforeThisOrMarker]
+    cases hh : sib.nodes.head? with
+    | none => exact mountItem_absent x hm
+    | some h =>
+      have : h ∈ sib.nodes := List.mem_of_head? hh
+      exact mountItem_absent x (hst sib (nextMounted_mem hn) h this)
+
+/-- the DOM phases of a list that is not in its parent leave the parent's children alone -/
+theorem placeAll_absent (marker : NodeId) (kids : List NodeId) (hm : marker ∉ kids) :
+    ∀ (P : List (Nat × Item)) (st : List (Option Item)),
+    (∀ it ∈ somes st, ∀ n ∈ it.nodes, n ∉ kids) → (∀ q ∈ P, ∀ n ∈ q.2.nodes, n ∉ kids) →
+    (placeAll marker P (kids, st)).1 = kids
+  | [], _, _, _ => rfl
+  | q :: P, st, hst, hP => by
+    have h1 : placeStep marker (kids, st) q = (kids, st.set q.1 (some q.2)) := by
+      simp only [placeStep, place1_absent q.1 q.2 hm hst]
+    have := placeAll_absent marker kids hm P (st.set q.1 (some q.2)) (by
+      intro it hit
+      rcases mem_somes_set hit with rfl | h
+      · exact hP q (by simp)
+      · exact hst it h) (fun q' hq' => hP q' (by simp [hq']))
+    simpa [placeAll, h1] using this
+
+theorem nodup_of_nodup_map {α β : Type} (g : α → β) : ∀ {l : List α}, (l.map g).Nodup → l.Nodup
+  | [], _ => List.nodup_nil
+  | a :: l, h => by
+    simp only [List.map_cons, List.nodup_cons] at h
+    exact List.nodup_cons.mpr ⟨fun ha => h.1 (List.mem_map.mpr ⟨a, ha, rfl⟩), nodup_of_nodup_map g h.2⟩
+
+theorem pairwise_of_nodup {α : Type} {R : α → α → Prop} : ∀ {l : List α}, l.Nodup →
+    (∀ a ∈ l, ∀ b ∈ l, a ≠ b → R a b) → l.Pairwise R
+  | [], _, _ => List.Pairwise.nil
+  | x :: l, hnd, h => by
+    simp only [List.nodup_cons] at hnd
+    refine List.pairwise_cons.mpr ⟨?_, pairwise_of_nodup hnd.2 (fun a ha b hb => h a (by simp [ha]) b (by simp [hb]))⟩
+    intro b hb
+    exact h x (by simp) b (by simp [hb]) (by rintro rfl; exact hnd.1 hb)
+
+/-! ### `rebuild` of a list that is not in the DOM -/
+
+/-- what is stored after `rebuild`: old items and freshly built, pairwise disjoint blocks above the old id
+counter and below the new one -/
+theorem rebuildWith_items_strong (D : List Key → List Key → Diff) (hD : DiffLike D) (s : KState) (to : List Key)
+    (hs : Wf s) (hto : to.Nodup) :
+    ∃ P : List Item,
+      P.Pairwise (fun a b => ∀ n ∈ a.nodes, n ∉ b.nodes) ∧
+      (∀ x ∈ P, x.nodes.Nodup ∧ (0 < s.bs → x.nodes ≠ []) ∧
+        ∀ n ∈ x.nodes, s.w.next ≤ n ∧ n < (rebuildWith D s to).w.next) ∧
+      (∀ z ∈ somes (rebuildWith D s to).w.storage, z ∈ somes s.w.storage ∨ z ∈ P) := by
+  have hw : ({ s.w with log := {} } : World).storage = (somes s.w.storage).map some := hs.all_some
+  obtain ⟨hsim1, hsim2, _⟩ := rebuildWith_sim D s to
+  rw [← hsim1, ← hsim2]
+  by_cases hte : to = []
+  · subst hte
+    have sm := applyDiff_summary D hD s.hashed [] (somes s.w.storage) hs.nodup hto hs.keys s.bs s.marker
+      { s.w with log := {} } hw rfl
+    have hnil : somes (applyDiff s.bs s.marker (D s.hashed []) [] { s.w with log := {} }).storage = [] :=
+      List.eq_nil_of_length_eq_zero sm.len
+    exact ⟨[], List.Pairwise.nil, by simp, by rw [hnil]; simp⟩
+  · obtain ⟨rem, U, ads, c, hn, _, heq⟩ := applyDiff_spec D hD s.hashed to (somes s.w.storage) hs.nodup hto
+      hs.keys hte s.bs s.marker { s.w with log := {} } hw
+    have hcl := c.pipeline_closed hn s.bs s.marker { s.w with log := {} } hw
+    have hfs := c.final_storage s.bs s.w.next
+    rw [heq, hcl]
+    refine ⟨(addPlacements s.bs to s.w.next ads).map (·.2), addPlacements_pairwise_disjoint s.bs to ads s.w.next,
+      ?_, ?_⟩
+    · intro x hx
+      obtain ⟨q, hq, rfl⟩ := List.mem_map.mp hx
+      obtain ⟨h1, h2, h3⟩ := addPlacements_nodes (p := q.1) (it := q.2) hq
+      exact ⟨h2, h3, h1⟩
+    · intro z hz
+      simp only [somes_filter_isSome] at hz hfs
+      obtain ⟨j, hj⟩ := List.mem_iff_getElem?.mp hz
+      have hjlt : j < to.length := by
+        have := (List.getElem?_eq_some_iff.mp hj).1
+        have := hfs.2.1
+        omega
+      obtain ⟨it, hit, _, hold', hnew'⟩ := hfs.2.2 j to[j] (List.getElem?_eq_getElem hjlt)
+      rw [hj] at hit
+      simp only [Option.some.injEq] at hit
+      subst hit
+      by_cases hkf : to[j] ∈ s.hashed
+      · obtain ⟨i, hi⟩ := List.mem_iff_getElem?.mp hkf
+        exact Or.inl (List.mem_of_getElem? (hold' i hi))
+      · exact Or.inr (List.mem_map.mpr ⟨(j, z), hnew' hkf, rfl⟩)
+
+theorem mem_somes_set_none {st : List (Option Item)} {p : Nat} {z : Item}
+    (h : z ∈ somes (st.set p none)) : z ∈ somes st := by
+  simp only [somes, List.mem_filterMap, id] at h ⊢
+  obtain ⟨o, ho, rfl⟩ := h
+  obtain ⟨j, hj⟩ := List.mem_iff_getElem?.mp ho
+  rw [List.getElem?_set] at hj
+  split at hj
+  · split at hj <;> simp at hj
+  · exact ⟨some z, List.mem_of_getElem? hj, rfl⟩
+
+/-- the removal loop on a list whose items are not in the DOM leaves the parent's children alone -/
+theorem removeFold_kids_of_disjoint : ∀ (ats : List Nat) (w : World),
+    (∀ it ∈ somes w.storage, ∀ n ∈ it.nodes, n ∉ w.kids) → (ats.foldl removeStep w).kids = w.kids
+  | [], _, _ => rfl
+  | a :: ats, w, h => by
+    rw [List.foldl_cons]
+    have hstep : (removeStep w a).kids = w.kids ∧
+        ∀ it ∈ somes (removeStep w a).storage, it ∈ somes w.storage := by
+      unfold removeStep
+      cases hv : w.storage[a]? with
+      | none => exact ⟨rfl, fun it h => h⟩
+      | some v =>
+        cases v with
+        | none => exact ⟨rfl, fun it h => h⟩
+        | some x =>
+          have hx : x ∈ somes w.storage := by
+            simp only [somes, List.mem_filterMap, id]
+            exact ⟨some x, List.mem_of_getElem? hv, rfl⟩
+          refine ⟨?_, ?_⟩
+          · simp only [World.unmount]
+            exact unmountItem_of_disjoint (h x hx)
+          · intro it hit
+            simp only [World.unmount] at hit
+            exact mem_somes_set_none hit
+    rw [removeFold_kids_of_disjoint ats _ (by
+      intro it hit n hn
+      rw [hstep.1]
+      exact h it (hstep.2 it hit) n hn), hstep.1]
+
+/-- the parent's children are untouched by the `rebuild` of a list that is not in the DOM — whether the list
+has never had a parent (no DOM call is made) or still holds the parent it was unmounted from (every
+insertion fails) -/
+theorem rebuildWith_detached_kids (D : List Key → List Key → Diff) (hD : DiffLike D) (s : KState) (to : List Key)
+    (hs : Wf s) (hd : Detached s) (hto : to.Nodup) :
+    (rebuildWith D s to).w.kids = s.w.kids := by
+  have hw : ({ s.w with log := {} } : World).storage = (somes s.w.storage).map some := hs.all_some
+  have hdis : ∀ x ∈ somes s.w.storage, ∀ n ∈ x.nodes, n ∉ s.w.kids :=
+    fun x hx n hn => hd.disjoint n (mem_blocks.mpr ⟨x, hx, hn⟩)
+  -- the clear phase and the removal loop unmount items that are not in the DOM
+  have hclear : (clearPhase { s.w with log := {} }).kids = s.w.kids := by
+    rw [clearPhase_eq { s.w with log := {} } (somes s.w.storage) hw]
+    exact unmount_fold_of_disjoint _ hdis
+  by_cases hte : to = []
+  · subst hte
+    by_cases hfe : s.hashed = []
+    · have hd0 : D s.hashed [] = {} := by rw [hfe]; exact hD.nil_nil
+      have ho : somes s.w.storage = [] := by
+        have := hs.keys; rw [hfe] at this; simpa using this
+      have hst : s.w.storage = [] := by rw [hs.all_some, ho]; rfl
+      unfold rebuildWith
+      cases s.parent <;> simp [hd0, applyDiff, applyDiffDetached, unpackMoves, unpackLoop, hst]
+    · have hd0 : D s.hashed [] = { clear := true } := hD.to_nil _ hfe
+      unfold rebuildWith
+      cases s.parent
+      · simp only [hd0, Bool.false_eq_true, if_false]
+        have : applyDiffDetached s.bs { clear := true } [] { s.w with log := {} }
+            = clearPhase { s.w with log := {} } := by simp [applyDiffDetached]
+        rw [this]; exact hclear
+      · simp only [hd0, if_true]
+        have : applyDiff s.bs s.marker { clear := true } [] { s.w with log := {} }
+            = clearPhase { s.w with log := {} } := by simp [applyDiff]
+        rw [this]; exact hclear
+  · obtain ⟨rem, U, ads, c, hn, hU, heq⟩ := applyDiff_spec D hD s.hashed to (somes s.w.storage) hs.nodup hto
+      hs.keys hte s.bs s.marker { s.w with log := {} } hw
+    -- the removed items are old items: not in the DOM
+    have hk1 : kids1 { s.w with log := {} } rem = s.w.kids := by
+      rw [kids1, hw]
+      exact unmount_fold_of_disjoint _ (fun x hx => hdis x (c.mem_removed.mp hx).1)
+    have hclearF : (D s.hashed to).clear = false := by
+      by_cases hfe : s.hashed = []
+      · rw [hfe]; exact (hD.from_nil to hte).1
+      · exact (hD.general s.hashed to hfe hte).1
+    unfold rebuildWith
+    cases hp : s.parent
+    · -- no parent: only the removal loop reaches the DOM
+      simp only [Bool.false_eq_true, if_false]
+      rw [applyDiffDetached_eq]
+      simp only [hclearF, Bool.false_and, Bool.false_eq_true, if_false]
+      rw [pipelineD_kids]
+      exact removeFold_kids_of_disjoint _ _ (by
+        intro it hit
+        simp only at hit ⊢
+        rw [hw, somes_map_some] at hit
+        exact hdis it hit)
+    · -- a parent that does not hold the list: every insertion fails
+      simp only [if_true]
+      rw [heq, c.pipeline_closed hn s.bs s.marker { s.w with log := {} } hw]
+      simp only
+      rw [hk1]
+      apply placeAll_absent s.marker s.w.kids hd.marker_out
+      · intro it hit
+        have hit' : it ∈ somes (storage4 (List.map some (somes s.w.storage)) rem U ads.length) := by
+          rw [← hw]; exact hit
+        exact hdis it ((c.mem_somes_storage4 hU).mp hit').1
+      · intro q hq n hnq
+        rw [placements, List.mem_append] at hq
+        rcases hq with hq | hq
+        · have hq' : q ∈ dPlacements (movedWith (List.map some (somes s.w.storage)) rem U) := by
+            rw [← hw]; exact hq
+          obtain ⟨m, _, _, _, hx⟩ := c.mem_dPlacements.mp hq'
+          exact hdis q.2 (List.mem_of_getElem? hx) n hnq
+        · have h1 := ((addPlacements_nodes (p := q.1) (it := q.2) hq).1 n hnq).1
+          intro hk
+          exact absurd (hd.fresh n hk) (Nat.not_lt.mpr h1)
+
+/-- **`rebuild` of a list that is not in the DOM** keeps it out of the DOM and well-formed: the parent's
+children are unchanged, the stored blocks stay pairwise disjoint, non-empty and fresh -/
+theorem rebuildWith_detached (D : List Key → List Key → Diff) (hD : DiffLike D) (s : KState) (to : List Key)
+    (hs : Wf s) (hd : Detached s) (hto : to.Nodup) :
+    Detached (rebuildWith D s to) ∧ (rebuildWith D s to).w.kids = s.w.kids := by
+  have hk := rebuildWith_detached_kids D hD s to hs hd hto
+  obtain ⟨P, hPpw, hP, hitems⟩ := rebuildWith_items_strong D hD s to hs hto
+  have hnext := (rebuildWith_items D hD s to hs hto).2
+  have hsum := (applyDiff_summary D hD s.hashed to (somes s.w.storage) hs.nodup hto hs.keys s.bs s.marker
+    { s.w with log := {} } hs.all_some rfl).of_sim (rebuildWith_sim D s to)
+  -- the new stored items are pairwise different (their keys are)
+  have hkeys : (somes (rebuildWith D s to).w.storage).map (·.key) = to := by
+    apply List.ext_getElem?
+    intro j
+    rw [List.getElem?_map]
+    by_cases hj : j < to.length
+    · obtain ⟨it, hit, hkey, _⟩ := hsum.at_ j to[j] (List.getElem?_eq_getElem hj)
+      rw [hit, List.getElem?_eq_getElem hj]; simp [hkey]
+    · rw [List.getElem?_eq_none (by rw [hsum.len]; omega), List.getElem?_eq_none (by omega)]; rfl
+  have hLnd : (somes (rebuildWith D s to).w.storage).Nodup := nodup_of_nodup_map (·.key) (hkeys ▸ hto)
+  have hold_lt : ∀ x ∈ somes s.w.storage, ∀ n ∈ x.nodes, n < s.w.next :=
+    fun x hx n hn => hd.blocks_fresh n (mem_blocks.mpr ⟨x, hx, hn⟩)
+  have hnodes_nodup : ∀ x ∈ somes (rebuildWith D s to).w.storage, x.nodes.Nodup := by
+    intro x hx
+    rcases hitems x hx with h | h
+    · exact block_nodup_of_mem hd.blocks_nodup h
+    · exact (hP x h).1
+  have hpw : (somes (rebuildWith D s to).w.storage).Pairwise (fun a b => ∀ n ∈ a.nodes, n ∉ b.nodes) := by
+    apply pairwise_of_nodup hLnd
+    intro a ha b hb hab n hna hnb
+    rcases hitems a ha with h1 | h1 <;> rcases hitems b hb with h2 | h2
+    · exact disjoint_of_mem hd.blocks_nodup h1 h2 hab n hna hnb
+    · exact absurd (hold_lt a h1 n hna) (Nat.not_lt.mpr ((hP b h2).2.2 n hnb).1)
+    · exact absurd (hold_lt b h2 n hnb) (Nat.not_lt.mpr ((hP a h1).2.2 n hna).1)
+    · exact pairwise_symm_of_mem (fun x y hxy m hm hm' => hxy m hm' hm) hPpw h1 h2 hab n hna hnb
+  refine ⟨⟨by rw [hk]; exact hd.nodup, nodup_blocks_of_pairwise hnodes_nodup hpw, ?_, by rw [hk]; exact hd.marker_out,
+    ?_, ?_, ?_, ?_, Nat.lt_of_lt_of_le hd.marker_fresh hnext, hd.bs_pos⟩, hk⟩
+  · intro n hn
+    rw [hk]
+    obtain ⟨x, hx, hnx⟩ := mem_blocks.mp hn
+    rcases hitems x hx with h | h
+    · exact hd.disjoint n (mem_blocks.mpr ⟨x, h, hnx⟩)
+    · intro hkid
+      exact absurd (hd.fresh n hkid) (Nat.not_lt.mpr ((hP x h).2.2 n hnx).1)
+  · intro hn
+    obtain ⟨x, hx, hnx⟩ := mem_blocks.mp hn
+    rcases hitems x hx with h | h
+    · exact hd.marker_not_item (mem_blocks.mpr ⟨x, h, hnx⟩)
+    · exact absurd hd.marker_fresh (Nat.not_lt.mpr ((hP x h).2.2 _ hnx).1)
+  · intro x hx
+    rcases hitems x hx with h | h
+    · exact hd.nonempty x h
+    · exact (hP x h).2.1 hd.bs_pos
+  · intro n hn
+    rw [hk] at hn
+    exact Nat.lt_of_lt_of_le (hd.fresh n hn) hnext
+  · intro n hn
+    obtain ⟨x, hx, hnx⟩ := mem_blocks.mp hn
+    rcases hitems x hx with h | h
+    · exact Nat.lt_of_lt_of_le (hold_lt x h n hnx) hnext
+    · exact ((hP x h).2.2 n hnx).2
+
 end Leptos.Keyed
